@@ -66,6 +66,7 @@ type nodeState struct {
 	hasSt      bool
 	commit     uint64
 	latest     *ev.Cfg           // latest configuration according to the node
+	unreach    map[uint64]bool   // leader: followers it has reported unreachable
 	roundDone  map[uint64]uint64 // leader: node -> ordinal of the last round reported complete
 	removedFor map[uint64]int    // index of the configuration that removed it -> incarnation that shut down for it
 	// C17: the leader this node hears from, and what that leader has sent to
@@ -428,6 +429,15 @@ func (a *Analyzer) Feed(r *ev.Rec) {
 		a.onRound(n, r)
 	case "xfer-target":
 		a.onXferTarget(n, r)
+	case "unreachable":
+		// the leader's own view: it cannot reach (or refuses) follower r.ID
+		if n != nil {
+			if n.unreach == nil {
+				n.unreach = map[uint64]bool{}
+			}
+			n.unreach[r.ID] = r.On
+			a.stat("unreachable-reports")
+		}
 	case "commit-ready", "quorum-unreachable", "snap-taken":
 		a.onState(n, r, false)
 	case "dump":
@@ -1248,6 +1258,11 @@ func (a *Analyzer) starved(x *nodeState, by uint64, q int64) {
 		return
 	}
 	if ln.latest == nil || ln.latest.Index != x.followCfg || !ln.latest.IsVoter(x.key.nid) {
+		return
+	}
+	if ln.unreach[x.key.nid] {
+		// the leader knows it is not getting through (it retries at its own
+		// pace; a follower it refuses as faulty is the known finding D12)
 		return
 	}
 	a.find("C17", "voter-starved-of-heartbeats", "", q, "leader %d (term %d, no fault active) has sent %d requests to node %d in the %d ticks (quarters of a heartbeat timeout) since it last contacted %s, a voter of its configuration %s, and none to that node", x.followL, x.followT, x.othersServed[by], by, a.ticks-x.followTick, x.key, cfgString(ln.latest))
